@@ -1275,6 +1275,166 @@ def generate_cache():
     return '\n'.join(lines) + '\n'
 
 
+# ---------------------------------------------------------------- translator to coq/RouteAst.v
+ROUTE_FILES = ['partial', 'derivative', 'differential', 'located_differential']
+ROUTE_METHODS = ('__init__', 'at', 'as_expression', 'component', 'component_at')
+ROUTE_CLASSES = {'Partial', 'Derivative', 'Differential', 'LocatedDifferential'}
+
+
+class RouteTranslator:
+    """methods and helpers of the derivative-object classes -> RouteAst.rfun (fail-closed)"""
+
+    def __init__(self, where):
+        self.where = where
+
+    def fail(self, what, node=None):
+        raise TieError('cannot translate %s in %s: %s' % (what, self.where, ast.dump(node)[:160] if node is not None else ''))
+
+    def is_str_expr(self, e):
+        if isinstance(e, ast.Constant) and isinstance(e.value, str):
+            return True
+        if isinstance(e, ast.BinOp) and isinstance(e.op, ast.Add):
+            return self.is_str_expr(e.left) and self.is_str_expr(e.right)
+        return False
+
+    def args(self, call):
+        out = []
+        for a in call.args:
+            if isinstance(a, ast.Starred):
+                self.fail('starred argument', call)
+            out.append('("", %s)' % self.expr(a))
+        for k in call.keywords:
+            if k.arg is None:
+                self.fail('**kwargs', call)
+            out.append('(%s, %s)' % (coq_str(k.arg), self.expr(k.value)))
+        return coq_list(out)
+
+    def expr(self, e):
+        if self.is_str_expr(e):
+            return '(RStr "")'
+        if isinstance(e, ast.Name):
+            return 'RSelf' if e.id == 'self' else '(RName %s)' % coq_str(e.id)
+        if isinstance(e, ast.Constant):
+            if e.value is None:
+                return 'RNone'
+            if e.value == 0 and isinstance(e.value, int) and not isinstance(e.value, bool):
+                return 'RZero'
+            self.fail('literal', e)
+        if isinstance(e, ast.Attribute) and isinstance(e.value, ast.Name) and e.value.id == 'self' and e.attr.startswith('_'):
+            return '(RField %s)' % coq_str(e.attr)
+        if isinstance(e, ast.UnaryOp) and isinstance(e.op, ast.Not):
+            return '(RNot %s)' % self.expr(e.operand)
+        if isinstance(e, ast.BoolOp) and isinstance(e.op, ast.And):
+            out = self.expr(e.values[-1])
+            for x in reversed(e.values[:-1]):
+                out = '(RAnd %s %s)' % (self.expr(x), out)
+            return out
+        if isinstance(e, ast.Compare) and len(e.ops) == 1:
+            op, l, r = e.ops[0], e.left, e.comparators[0]
+            if isinstance(op, (ast.Is, ast.IsNot)) and isinstance(r, ast.Constant) and r.value is None:
+                t = '(RIsNone %s)' % self.expr(l)
+                return t if isinstance(op, ast.Is) else '(RNot %s)' % t
+            if isinstance(op, ast.In) and isinstance(l, ast.Constant) and isinstance(l.value, str):
+                return '(RIn %s %s)' % (coq_str(l.value), self.expr(r))
+            self.fail('comparison', e)
+        if isinstance(e, ast.Subscript) and isinstance(e.slice, ast.Constant) and isinstance(e.slice.value, str):
+            return '(RIndex %s %s)' % (self.expr(e.value), coq_str(e.slice.value))
+        if isinstance(e, ast.Dict) and len(e.keys) == 1 and isinstance(e.keys[0], ast.Constant) and isinstance(e.keys[0].value, str):
+            return '(RPrivDict %s %s)' % (coq_str(e.keys[0].value), self.expr(e.values[0]))
+        if isinstance(e, ast.Call):
+            f = e.func
+            if isinstance(f, ast.Name):
+                if f.id == 'isinstance' and len(e.args) == 2 and not e.keywords and isinstance(e.args[1], ast.Attribute) \
+                        and e.args[1].attr == 'Point':
+                    return '(RIsPoint %s)' % self.expr(e.args[0])
+                if f.id.startswith('_'):
+                    return '(RHelper %s %s)' % (coq_str(f.id), self.args(e))
+                self.fail('call of a name', e)
+            if isinstance(f, ast.Attribute) and isinstance(f.value, ast.Name) and f.value.id in ('va', 'be', 'pt', 'util', 'pa', 'ld'):
+                mod, fn = f.value.id, f.attr
+                if (mod, fn) == ('va', 'get_variable_name') and len(e.args) == 1 and not e.keywords:
+                    return '(RGetName %s)' % self.expr(e.args[0])
+                if (mod, fn) == ('be', 'get_the_single_variable_name') and len(e.args) == 2 and not e.keywords:
+                    return '(RSingleName %s)' % self.expr(e.args[0])
+                if (mod, fn) == ('pt', 'point_on_number_line') and len(e.args) == 2 and not e.keywords:
+                    return '(RNumberLine %s %s)' % (self.expr(e.args[0]), self.expr(e.args[1]))
+                if (mod, fn) == ('util', 'map_dictionary_values') and len(e.args) == 2 and not e.keywords \
+                        and isinstance(e.args[1], ast.Lambda) and len(e.args[1].args.args) == 2:
+                    lam = e.args[1]
+                    return '(RMapValues %s %s %s %s)' % (self.expr(e.args[0]), coq_str(lam.args.args[0].arg),
+                                                        coq_str(lam.args.args[1].arg), self.expr(lam.body))
+                if mod in ('pa', 'ld') and fn in ROUTE_CLASSES:
+                    return '(RNew %s %s)' % (coq_str(fn), self.args(e))
+                self.fail('library call', e)
+            if isinstance(f, ast.Attribute) and f.attr == 'get' and len(e.args) == 2 and not e.keywords:
+                return '(RGet %s %s %s)' % (self.expr(f.value), self.expr(e.args[0]), self.expr(e.args[1]))
+            if isinstance(f, ast.Attribute):
+                return '(RCall %s %s %s)' % (self.expr(f.value), coq_str(f.attr), self.args(e))
+        self.fail('expression', e)
+
+    def block(self, stmts):
+        out = []
+        for st in stmts:
+            if isinstance(st, ast.Expr) and isinstance(st.value, ast.Constant):
+                continue
+            if isinstance(st, ast.AnnAssign) and st.value is None:
+                continue
+            out.append(self.stmt(st))
+        return coq_list(out)
+
+    def stmt(self, st):
+        if isinstance(st, ast.Return):
+            return '(RSReturn %s)' % ('RNone' if st.value is None else self.expr(st.value))
+        if isinstance(st, ast.If):
+            return '(RSIf %s %s %s)' % (self.expr(st.test), self.block(st.body), self.block(st.orelse))
+        if isinstance(st, ast.Assign) and len(st.targets) == 1:
+            t = st.targets[0]
+            if isinstance(t, ast.Name):
+                return '(RSAssign %s %s)' % (coq_str(t.id), self.expr(st.value))
+            if isinstance(t, ast.Attribute) and isinstance(t.value, ast.Name) and t.value.id == 'self':
+                return '(RSSetField %s %s)' % (coq_str(t.attr), self.expr(st.value))
+        if isinstance(st, ast.Expr) and isinstance(st.value, ast.Call):
+            return '(RSExpr %s)' % self.expr(st.value)
+        self.fail('statement', st)
+
+    def function(self, fd, is_method):
+        a = fd.args
+        if a.kwonlyargs or a.kwarg or a.posonlyargs or a.vararg:
+            self.fail('parameters', fd)
+        params = [p.arg for p in a.args]
+        if is_method:
+            if not params or params[0] != 'self':
+                self.fail('method without self', fd)
+            params = params[1:]
+        return '{| r_params := %s; r_body := %s |}' % (coq_list([coq_str(p) for p in params]), self.block(fd.body))
+
+
+def generate_route():
+    lines = ['(* GENERATED by harness/tie_extract.py: the current source of the methods and helpers of Partial,',
+             '   Derivative, Differential and LocatedDifferential, translated into RouteAst.rfun -- do not edit *)',
+             'From Coq Require Import ZArith List String.', 'From SM Require Import RouteAst.',
+             'Import ListNotations.', 'Open Scope string_scope.', '']
+    sigs = []
+    for fn in ROUTE_FILES:
+        t = parse(os.path.join(SRC, '_private', fn + '.py'))
+        for node in t.body:
+            if isinstance(node, ast.FunctionDef):
+                tr = RouteTranslator('%s.%s' % (fn, node.name))
+                lines.append('Definition gen_route_fn%s : rfun := %s.' % (node.name, tr.function(node, False)))
+                sigs.append((fn, node.name, [ast.unparse(d) for d in node.args.defaults]))
+            if isinstance(node, ast.ClassDef) and node.name in ROUTE_CLASSES:
+                for m in methods_of(node):
+                    if m.name in ROUTE_METHODS:
+                        tr = RouteTranslator('%s.%s' % (node.name, m.name))
+                        lines.append('Definition gen_route_%s_%s : rfun := %s.' % (node.name, m.name.strip('_'), tr.function(m, True)))
+                        sigs.append((node.name, m.name, [ast.unparse(d) for d in m.args.defaults]))
+    lines.append('')
+    lines.append('(* owner, function, the default values of its trailing parameters *)')
+    lines.append('Definition gen_route_defaults : list (string * string * list string) := ' +
+                 coq_list(['(%s, %s, %s)' % (coq_str(c), coq_str(m), coq_list([coq_str(d) for d in ds])) for c, m, ds in sigs]) + '.')
+    return '\n'.join(lines) + '\n'
+
+
 def write_if_changed(path, text):
     old = open(path).read() if os.path.exists(path) else None
     if old != text:
@@ -1326,6 +1486,14 @@ def main():
         print('TIE-TRANSLATE-FAILED: %s' % ex)
     if write_if_changed(os.path.join(coqdir, 'GeneratedCache.v'), ktext):
         print('GeneratedCache.v rewritten')
+    try:
+        rtext = generate_route()
+    except (TieError, SyntaxError, OSError) as ex:
+        rtext = ('(* GENERATED: the translator FAILED CLOSED: %s *)\n'
+                 'Definition route_translator_failed : False := I.\n') % str(ex).replace('*)', '* )')
+        print('TIE-TRANSLATE-FAILED: %s' % ex)
+    if write_if_changed(os.path.join(coqdir, 'GeneratedRoute.v'), rtext):
+        print('GeneratedRoute.v rewritten')
     out = sys.argv[1] if len(sys.argv) > 1 else os.path.join(os.path.dirname(os.path.dirname(os.path.abspath(__file__))), 'coq', 'Generated.v')
     try:
         text = generate()
